@@ -98,8 +98,9 @@ def report_crash(run, m, line, meta, info, layer):
         run.known_finding("C04-xer-charref-zero-assert", line)
         run.count("known_C04-xer-charref-zero-assert")
         return
-    how = "did not terminate within its CPU budget (hang)" if rc == 99 else "died (rc=%s, %s): sanitizer report, abort or signal" % (rc, what)
-    run.violation("crash:%s:%s" % (layer, (site[0] if site else what)),
+    hang = rc == 99 or (rc == -14 and "C04-HANG" in (err or ""))       # -14: the backstop of the hang guard (see c04_on_alarm)
+    how = "did not terminate within its CPU budget (hang)" if hang else "died (rc=%s, %s): sanitizer report, abort or signal" % (rc, what)
+    run.violation("crash:%s:%s" % (layer, (site[0] if site else ("HANG" if hang else what))),
                   {"what": "decoder process %s on a %s input" % (how, meta["kind"]),
                    "summary": summ[:3], "frames": site, "module": m["text"], "type": meta["tn"], "syntax": meta["syn"], "command_line": line,
                    "stderr_tail": (err or "")[-3000:],
@@ -750,11 +751,15 @@ def tagmap_layer(run, rng, tier, model):
                 v["tn"] = tn
                 v["der"] = TM.ser(v["tree"])
                 vals.append(v)
-        xl = [l for v in vals for l in ("xcode %s der %s uper" % (v["tn"], hexs(v["der"])), "xcode %s der %s oer" % (v["tn"], hexs(v["der"])),
-                                        "xcode %s der %s cxer" % (v["tn"], hexs(v["der"])))]
-        xo, xe = run_par(m["exe"], xl)
+        xl = ["x4 %s %s" % (v["tn"], hexs(v["der"])) for v in vals]
+        (xo, xe), = run_many([(m["exe"], xl)], max_deaths=12)
         for k, info in xe.items():
-            report_crash(run, m, xl[k], {"tn": xl[k].split()[1], "syn": "ber", "kind": "valid", "data": b""}, info, "tagmap")
+            if not (info[1] == -1 and "not run" in info[2]):
+                report_crash(run, m, xl[k], {"tn": xl[k].split()[1], "syn": "ber", "kind": "valid", "data": bytes.fromhex(xl[k].split()[2])}, info, "tagmap")
+        encs = []
+        for o in xo:
+            f = o.split()
+            encs.append(f if (len(f) == 3 and f[0] != "DECFAIL") else ["NONE", "NONE", "NONE"])
         lines, metas, seen = [], [], set()
 
         def put(v, syn, kind, data, orig, **kw):
@@ -780,11 +785,11 @@ def tagmap_layer(run, rng, tier, model):
                 put(v, "ber", kind, data, v["der"], ext=ext)
             # ---- UPER / OER: every bit of the leading octets (presence bits, CHOICE index, counts), cuts, light damage
             for j, sy in enumerate(("uper", "oer")):
-                o = xo[3 * vi + j]
-                if not (o.startswith("OK ") and len(o.split()) == 2 and o.split()[1] != "-"):
+                o = encs[vi][j]
+                if o in ("NONE", "-"):
                     run.count("tagmap_no_%s_encoding" % sy)         # SET has no PER/OER codec
                     continue
-                U = bytes.fromhex(o.split()[1])
+                U = bytes.fromhex(o)
                 put(v, sy, "valid", U, U, valid=True)
                 for i in range(min(len(U), 4 if q else 8)):
                     for bit in range(8):
@@ -792,9 +797,9 @@ def tagmap_layer(run, rng, tier, model):
                 for kind, data in mut_truncate(U, rng, 24, 4) + mut_bytes_generic(U, rng, 3, 3, []):
                     put(v, sy, kind, data, U)
             # ---- XER: the same re-arrangements on the elements of the text
-            o = xo[3 * vi + 2]
-            if o.startswith("OK ") and len(o.split()) == 2 and o.split()[1] != "-":
-                X = bytes.fromhex(o.split()[1])
+            o = encs[vi][2]
+            if o not in ("NONE", "-"):
+                X = bytes.fromhex(o)
                 put(v, "xer", "valid", X, X, valid=True)
                 xc = TM.xer_children(X) if (top and b["cons"] in ("seq", "set")) else None
                 if xc:
@@ -812,7 +817,7 @@ def tagmap_layer(run, rng, tier, model):
                 run.count("tagmap_no_xer_encoding")
         jobs.append((m, lines, metas))
     tlog("tagmap: %d lines generated" % sum(len(j[1]) for j in jobs))
-    cres = run_many([(m["exe"], lines) for m, lines, metas in jobs], timeout=(150 if q else 1500), max_deaths=40)
+    cres = run_many([(m["exe"], lines) for m, lines, metas in jobs], timeout=(150 if q else 1500), max_deaths=12)
     tlog("tagmap: C side done, %d process deaths" % sum(len(e) for o, e in cres))
     # ---- the model on the tables of the type and the tags of the TLVs of every top-level BER input built here
     mlines, mwhere = [], []
